@@ -9,7 +9,8 @@
      conf   : "none" | "loaded" | "computed"      (PageParser.update_confidences)
      pass   : BOOLEAN                             (input: would the computed confidence exceed the filter threshold)
 
-   One action per stage call, in the order of the real method.  The configuration (which stages
+   One action per stage call, in the order of the real method (Layout = the whole chain of layout stages, modelled in detail in
+   LayoutChain.tla; here only its effect on the data flow: the lines are new).  The configuration (which stages
    run, whether the confidence filter is on) and the state of the input page are chosen in Init, so
    one TLC run covers every configuration x input combination for NLines lines.
 
@@ -22,18 +23,26 @@ Lines == 1..NLines
 LineStates == [crop : {"none"}, logits : {"none", "loaded"}, text : {"none", "loaded"},
                conf : {"none", "loaded"}, pass : BOOLEAN, loadedpass : BOOLEAN]
 
-VARIABLES cfg,      \* [crop, ocr, dec, filter : BOOLEAN]
+VARIABLES cfg,      \* [layout, crop, ocr, dec, filter : BOOLEAN]
           page,     \* sequence of line records still on the page (filtering removes lines)
           ids,      \* sequence of the original line numbers of the lines still on the page
           pc,       \* next stage: "crop" "ocr" "dec" "conf" "filter" "done"
           outcome
 vars == <<cfg, page, ids, pc, outcome>>
 
-Init == /\ cfg \in [crop : BOOLEAN, ocr : BOOLEAN, dec : BOOLEAN, filter : BOOLEAN]
+Init == /\ cfg \in [layout : BOOLEAN, crop : BOOLEAN, ocr : BOOLEAN, dec : BOOLEAN, filter : BOOLEAN]
         /\ page \in [Lines -> LineStates]
         /\ ids = [i \in Lines |-> i]
-        /\ pc = "crop"
+        /\ pc = "layout"
         /\ outcome = "running"
+
+\* RUN_LAYOUT_PARSER: the layout stages (LayoutChain.tla) detect the lines anew - whatever the input lines carried (logits,
+\* transcription, confidence loaded from PAGE XML / a logits file) is gone, the new lines carry nothing yet.  A detected line
+\* keeps the position (and, for the filter clause, the image content = pass) of the input line it replaces.
+Fresh(l) == [crop |-> "none", logits |-> "none", text |-> "none", conf |-> "none", pass |-> l.pass, loadedpass |-> l.loadedpass]
+Layout == /\ pc = "layout" /\ outcome = "running"
+          /\ page' = IF cfg.layout THEN [i \in DOMAIN page |-> Fresh(page[i])] ELSE page
+          /\ pc' = "crop" /\ UNCHANGED <<cfg, ids, outcome>>
 
 Crop == /\ pc = "crop" /\ outcome = "running"
         /\ page' = IF cfg.crop THEN [i \in DOMAIN page |-> [page[i] EXCEPT !.crop = "own"]] ELSE page
@@ -80,11 +89,11 @@ Filter == /\ pc = "filter" /\ outcome = "running"
                           /\ outcome' = "ok"
           /\ pc' = "done" /\ UNCHANGED cfg
 
-Next == Crop \/ Ocr \/ Dec \/ Conf \/ Filter
+Next == Layout \/ Crop \/ Ocr \/ Dec \/ Conf \/ Filter
 Spec == Init /\ [][Next]_vars /\ WF_vars(Next)
 
 \* ------------------------------------------- properties ---------------------------------------------
-TypeOK == pc \in {"crop", "ocr", "dec", "conf", "filter", "done"}
+TypeOK == pc \in {"layout", "crop", "ocr", "dec", "conf", "filter", "done"}
 \* the only way a page fails is the documented missing-crop error (a TypeError from the filter is a defect)
 OnlyDocumentedErrors == outcome \in {"running", "ok", "Exception"}
 \* a finished page is internally consistent: confidences belong to the logits on the line, text to the last stage that ran
@@ -95,6 +104,8 @@ Consistent == outcome = "ok" =>
                    /\ (cfg.dec /\ page[i].logits # "none") => page[i].text = "dec"
                    /\ (cfg.ocr /\ ~cfg.dec) => page[i].text = "ocr"
                    /\ cfg.filter => Passes(page[i])
+                   \* after the layout stages nothing of what the input lines carried is left
+                   /\ cfg.layout => (page[i].logits # "loaded" /\ page[i].text # "loaded" /\ page[i].conf # "loaded")
 \* filtering only removes lines and keeps the order
 OrderKept == \A a, b \in DOMAIN ids : a < b => ids[a] < ids[b]
 Terminates == <>(pc = "done")
